@@ -174,7 +174,15 @@ func (r FileReplacer) Replace(d data.Data, cl Changelog) (*ast.File, error) {
 		return nil, err
 	}
 
-	for _, m := range fd.Matches {
+	// Matches were recorded in pre-order: a match precedes the matches
+	// nested inside it. Replace in reverse, innermost first, so that a match
+	// that sits directly in the statement list of another match (say, a bare
+	// block inside a matched block) is already in place when the outer list
+	// is rebuilt from the elements "..." stood for. The other way around the
+	// inner replacement would be written into the outer node's discarded
+	// list.
+	for i := len(fd.Matches) - 1; i >= 0; i-- {
+		m := fd.Matches[i]
 		v := reflect.Indirect(reflect.ValueOf(m.parent)).FieldByName(m.name)
 		if !v.IsValid() {
 			// This is a bug in our code.
